@@ -85,6 +85,8 @@ Fixpoint efold_ret {A R} (f : Z -> A -> res (R + A)) (l : list Z) (a : A) : res 
 Definition eshiftl (a n : Z) : res Z := if n <? 0 then Err (EHost HValue) else Val (Z.shiftl a n).
 Definition eshiftr (a n : Z) : res Z := if n <? 0 then Err (EHost HValue) else Val (Z.shiftr a n).
 Definition epow (a n : Z) : res Z := if n <? 0 then Err (EHost HType) else Val (Z.pow a n).
+(* bytes(n): n zero bytes; negative n is a ValueError *)
+Definition ebytes (n : Z) : res (list Z) := if n <? 0 then Err (EHost HValue) else Val (repeat 0 (Z.to_nat n)).
 Definition ediv (a b : Z) : res Z := if b =? 0 then Err (EHost HZeroDiv) else Val (Z.div a b).
 Definition emod (a b : Z) : res Z := if b =? 0 then Err (EHost HZeroDiv) else Val (Z.modulo a b).
 
